@@ -145,6 +145,12 @@ MATCHERS["f3_ros"] = _rreason("F3")
 MATCHERS["never_ros"] = _rreason("NEVER")
 
 
+@matcher("f4_poisson_large_mean")
+def _f4(cex):
+    return cex.get("kind") in ("poisson_quantile_wrong", "poisson_no_result", "poisson_not_monotone") and \
+        cex.get("mean_at_least_100") is True
+
+
 def classify(pid, cexs):
     """returns (known, new): known = list of (finding, first matching cex) (one per
     finding), new = list of counterexamples no known finding accepts."""
